@@ -4,6 +4,7 @@ import subprocess
 
 from .. import core
 from .. import gen_schema as gs
+from .. import gen_types as gt
 from .. import vjudge, wire
 from ..wire import Obj, Num
 
@@ -13,7 +14,9 @@ N_THOROUGH = 1500
 LEAN_MODULES = ["JSV.Props.C13"]
 SHRINK = False
 RULE = ("per op one Resolved / Schema tree shared by 8 goroutines x 6 rounds calling Validate on every instance, ApplyDefaults on "
-        "distinct copies, Marshal, CloneSchemas, Resolve, For and Equal, compared with the sequential results; schemas exercise every "
+        "distinct copies, Marshal, CloneSchemas, Resolve, For and Equal, compared with the sequential results; in ~20% of the ops also "
+        "ForType on 1-4 types with one shared ForOptions.TypeSchemas (entries decoded from JSON), each result compared with the same "
+        "call made alone and the shared entries compared with an untouched twin afterwards; schemas exercise every "
         "cached or lazily built structure (patterns, patternProperties, required sets, $dynamicRef stack, unevaluated* annotations, "
         "uniqueItems hashing); the harness is rebuilt with -race and any race report is a violation. Non-trivial: every op; distinct = "
         "operation text. The theorem is about the sharing protocol (JSV/Model/Conc.lean); the Go memory model itself is sampled only.")
@@ -21,7 +24,23 @@ TRUSTED = ["Go race detector (sampling, not proof)"]
 PREFILTER = vjudge.prefilter
 
 
+def _with_infer(rng, ops):
+    """~20% of the operations: the goroutines also call ForType with ONE ForOptions (TypeSchemas entries decoded from JSON, multi-valued
+    `type` lists of every length, the overridden type by value / behind pointers / in containers) on 1-4 types."""
+    for o in ops:
+        if rng.random() < 0.2:
+            t, warm, ts = gt.typeschemas_case(rng, set())
+            if not warm and rng.random() < 0.5:
+                warm = [{"k": rng.choice(["ptr", "slice"]), "e": t}]
+            o["args"]["infer"] = {"type": t, "warm": warm, "opts": {"ignore": rng.random() < 0.2, "typeSchemas": ts}}
+    return ops
+
+
 def gen(rng, tier, n):
+    return _with_infer(rng, _gen(rng, tier, n))
+
+
+def _gen(rng, tier, n):
     ops = []
     while len(ops) < n:
         d7 = rng.random() < 0.25
